@@ -10,7 +10,7 @@ EXPLANATION = ('(1) sibling agreement: the progress variants have the same loop 
                'k == total-1 with total the trip count, the reporter leaves its loop when n_finished >= number of channels and counts a chain as finished under stats.n == total; '
                '(5) the two reporter closures (core.rs, nuts.rs) are structurally identical; (6) no dtype-checked TensorData accessor whose element type is not syntactically the '
                'data\'s dtype reaches unwrap/expect. Termination under every interleaving is a liveness property and is NOT decided (the obligations in 4 are necessary, not sufficient).')
-FLOORS = {'obligations': 41}   # counted on the reference tree; fewer instantiated obligations is reported, never passed silently
+FLOORS = {'obligations': 44}   # counted on the reference tree; fewer instantiated obligations is reported, never passed silently
 TECHNIQUE = 'sibling loop-summary agreement, result-discipline and typestate (TensorData dtype) analysis, structural equivalence of the reporter closures'
 SEND = 'std::sync::mpsc::Sender::send'
 
@@ -26,6 +26,11 @@ def run(ctx):
     stats_from_returned(ctx, nc, nd)
     dtype(ctx)
     tracker_total(ctx)
+    for nm, root, al in (('ChainRunner::run_progress', ctx.anchor('rp', name='run_progress', trait='core::ChainRunner', container='trait'), {'narrow': 3}),
+                         ('HMC::run_progress', ctx.anchor('hp', name='run_progress', self_head='hmc::HMC', container='inherent'), {'narrow': 4}),
+                         ('NUTS::run_progress', ctx.anchor('np', name='run_progress', self_head='nuts::NUTS', container='inherent'), {'narrow': 6, 'numcast': 3})):
+        if root is not None:
+            narrowing_budget(ctx, 'C10', nm, [root], al, why='only the diagnostics side of progress mode works in f32 (tracker inputs, stats); every further narrowing risks the returned draws; a conversion to a fixed narrower float type (or an f64 -> element-type read-back) on this path changes values for wider element types / back ends', sp=root['sp'])
 
 
 def send_rules(ctx, pfx, A, ev, ls, sp):
